@@ -703,6 +703,45 @@ def register_more(GROUPS, c2g, incs, REPO, HERE, STRUCTS, Group):
               "   left single, left double, right single, right double, no rotation *)\n"
               "Definition c9_avl_count_order : list Z := [%s].\n" % "; ".join(str(names[s]) for s in seq),
               dict(name="c9_avl_count_order", fuel=False, params=[]))
+        # which fields of the node object the insert functions overwrite before linking it in (a node may carry stale left / right /
+        # count from an earlier life: avl_unlink_node + re-insertion, or a caller-allocated node that was never initialised)
+        S(g, "c9_avl_clear_node", "avl_clear_node", AF, ["newnode_left", "newnode_right", "newnode_count"], [],
+          comment="avl_clear_node: (left, right, count) of the node afterwards")
+        S(g, "c9_avl_init_node", "avl_init_node", AF, ["ret", "newnode_item", "newnode_left", "newnode_right", "newnode_count", "*ghosts"],
+          ["newnode", "item", "newnode_item", "newnode_left", "newnode_right", "newnode_count"], ret="ret", effects=("avl_clear_node",),
+          params=("newnode", "item", "newnode_item", "newnode_left", "newnode_right", "newnode_count"),
+          expect_outs=["ret", "newnode_item", "newnode_left", "newnode_right", "newnode_count"],
+          comment="avl_init_node: (returned node, item, left, right, count): only the item is written; no call of avl_clear_node")
+        S(g, "c9_avl_insert_top", "avl_insert_top", AF,
+          ["ret", "newnode_prev", "newnode_next", "newnode_parent", "avltree_head", "avltree_tail", "avltree_top", "*ghosts"],
+          ["newnode"], ret="ret", effects=("avl_clear_node",),
+          expect_outs=["ret", "newnode_prev", "newnode_next", "newnode_parent", "avltree_head", "avltree_tail", "avltree_top",
+                       "avl_clear_node_called", "avl_clear_node_arg0"],
+          comment="avl_insert_top: the node is cleared (avl_clear_node called on it), prev = next = parent = NULL, head = tail = top = node")
+
+        def direct_path(F):
+            # the statements after the early returns (node == NULL, redirection to the in-order neighbour)
+            b = body(F)
+            k = 0
+            while k < len(b) and b[k].get("kind") == "IfStmt" and sl.find_nodes(b[k], lambda n: n.get("kind") == "ReturnStmt"):
+                k += 1
+            if k != 2:
+                raise c2g.Unsupported("%s: expected two early returns, found %d" % (F.get("name"), k))
+            return b[k:]
+        S(g, "c9_avl_insert_before_link", "avl_insert_before", AF,
+          ["ret", "newnode_next", "newnode_parent", "newnode_prev", "node_prev_next", "avltree_head", "node_prev", "node_left", "*ghosts"],
+          ["newnode", "node", "node_prev", "node_prev_next", "avltree_head", "avltree"], ret="ret", pick=direct_path,
+          effects=("avl_clear_node", "avl_rebalance"),
+          expect_outs=["ret", "newnode_next", "newnode_parent", "newnode_prev", "node_prev_next", "avltree_head", "node_prev", "node_left",
+                       "avl_clear_node_called", "avl_clear_node_arg0", "avl_rebalance_called", "avl_rebalance_arg0", "avl_rebalance_arg1"],
+          comment="avl_insert_before on the path that links the new node as the left child of `node` (node != NULL, node->left == NULL)")
+        S(g, "c9_avl_insert_after_link", "avl_insert_after", AF,
+          ["ret", "newnode_prev", "newnode_parent", "newnode_next", "node_next_prev", "avltree_tail", "node_next", "node_right", "*ghosts"],
+          ["newnode", "node", "node_next", "node_next_prev", "avltree_tail", "avltree"], ret="ret", pick=direct_path,
+          effects=("avl_clear_node", "avl_rebalance"),
+          expect_outs=["ret", "newnode_prev", "newnode_parent", "newnode_next", "node_next_prev", "avltree_tail", "node_next", "node_right",
+                       "avl_clear_node_called", "avl_clear_node_arg0", "avl_rebalance_called", "avl_rebalance_arg0", "avl_rebalance_arg1"],
+          comment="avl_insert_after on the path that links the new node as the right child of `node` (node != NULL, node->right == NULL)")
         return g, [AF]
 
     # ------------------------------------------------------------------------------------------------------------------
